@@ -9,8 +9,8 @@ open Dcg.Model.FieldStr
 
 theorem pyd_bound (s : Pyd) :
     ∀ n ∈ Pyd.memberNames s, n ∈ Pyd.imports s ∨ n ∈ (Pyd.factory s).names := by
-  obtain ⟨r, nl, ua, uk, oa, dn, ef, mf⟩ := s
-  cases ef <;> cases mf <;> cases r <;> cases nl <;> cases ua <;> cases uk <;> cases oa <;> cases dn <;>
+  obtain ⟨r, nl, ua, uk, oa, kb, dn, ef, mf⟩ := s
+  cases ef <;> cases mf <;> cases kb <;> cases r <;> cases nl <;> cases ua <;> cases uk <;> cases oa <;> cases dn <;>
     simp [Pyd.memberNames, Pyd.imports, Pyd.toV, Pyd.str, Pyd.factory, Pyd.hasArgs, Factory.names,
       Dcg.Model.FieldText.memberUses, Dcg.Model.FieldText.imports, Dcg.Model.FieldText.field,
       Dcg.Model.FieldText.annotated]
